@@ -244,6 +244,23 @@ func cmdCheck(mode string, args []string) {
 		}
 	}
 	solveAll(r, jobs)
+	// a claimed obligation that came back without an answer (timeout / unknown / solver crash) is solved once
+	// more with three times the budget and at most four queries at a time, before it is reported: the first
+	// pass runs 16 queries at a time and a loaded machine must not turn a proof into an alarm. An answer
+	// (unsat or sat) is never retried.
+	retried := 0
+	if mode == "check" {
+		var again []*OblResult
+		for _, j := range jobs {
+			if locked[j.Obl.Name] && !j.Obl.WantSat && j.Res.Status != "unsat" && j.Res.Status != "sat" {
+				again = append(again, j)
+			}
+		}
+		retried = len(again)
+		r.timeout *= 3
+		solveN(r, again, 4)
+		r.timeout /= 3
+	}
 	lemmaRes := runLemmas(*verif, cfg.Lemmas, r)
 
 	byName := map[string]*OblResult{}
@@ -435,7 +452,7 @@ func cmdCheck(mode string, args []string) {
 	}
 	writeEvidence(*verif, &cfg, *tier, p, vcs, jobs, time.Since(t0).Seconds(), violations, "", r, &evidenceExtra{
 		seeds: seedRes,
-		locked: nLocked, discharged: discharged, skipped: skipped, undecidedNew: undecidedNew, refutedNew: refutedNew, unclaimed: unclaimed, lemmas: lemmaRes, known: knownOpen, lockedSet: locked, bounded: bres,
+		retried: retried, locked: nLocked, discharged: discharged, skipped: skipped, undecidedNew: undecidedNew, refutedNew: refutedNew, unclaimed: unclaimed, lemmas: lemmaRes, known: knownOpen, lockedSet: locked, bounded: bres,
 	})
 	fmt.Printf("property %s: %d/%d claimed obligations discharged, %d unclaimed, %d new-undecided, %d new-refuted, %.1fs\n",
 		*prop, discharged, nLocked, len(unclaimed), len(undecidedNew), len(refutedNew), time.Since(t0).Seconds())
@@ -487,8 +504,10 @@ func classOf(name string) string {
 	return strings.SplitN(parts[1], ":", 2)[0]
 }
 
-func solveAll(r *Runner, jobs []*OblResult) {
-	sem := make(chan struct{}, 16)
+func solveAll(r *Runner, jobs []*OblResult) { solveN(r, jobs, 16) }
+
+func solveN(r *Runner, jobs []*OblResult, par int) {
+	sem := make(chan struct{}, par)
 	done := make(chan struct{})
 	for _, j := range jobs {
 		j := j
@@ -547,6 +566,7 @@ func writeLock(lockFile, unclFile string, jobs []*OblResult, lemmas []LemmaResul
 
 type evidenceExtra struct {
 	locked, discharged, skipped int
+	retried                     int
 	undecidedNew, refutedNew    []string
 	unclaimed                   map[string]unclaimedEntry
 	lemmas                      []LemmaResult
@@ -696,6 +716,19 @@ func writeEvidence(verif string, cfg *PropConfig, tier string, p *Program, vcs [
 		cov["samples"] = samples
 		cov["solver_wins"] = r.wins
 		cov["solver_seconds"] = r.secs
+		cov["retried_alone_after_no_answer"] = ex.retried
+		var slow []*OblResult
+		for _, j := range jobs {
+			if ex.lockedSet[j.Obl.Name] {
+				slow = append(slow, j)
+			}
+		}
+		sort.Slice(slow, func(a, b int) bool { return slow[a].Res.Secs > slow[b].Res.Secs })
+		var slowest []map[string]interface{}
+		for i := 0; i < len(slow) && i < 3; i++ {
+			slowest = append(slowest, map[string]interface{}{"obligation": slow[i].Obl.Name, "solver": slow[i].Res.Solver, "seconds": slow[i].Res.Secs})
+		}
+		cov["slowest_claimed_obligations"] = slowest
 		cov["unclaimed_obligations"] = len(ex.unclaimed)
 		cov["unclaimed_skipped_in_quick"] = ex.skipped
 		cov["undecided_new"] = ex.undecidedNew
@@ -753,9 +786,15 @@ func writeEvidence(verif string, cfg *PropConfig, tier string, p *Program, vcs [
 		"property_id": cfg.ID, "tier": tier, "seed": seed, "level": level, "coverage": cov,
 		"assumptions": assumptions, "wall_s": wall, "violations": violations,
 	}
-	os.MkdirAll(filepath.Join(verif, "evidence"), 0o755)
+	// VERIF_EVIDENCE_DIR: the seed/mutation tools run the registered checks on deliberately broken trees;
+	// they point this at a scratch directory so that /verif/evidence only ever records runs of the real tree.
+	evDir := filepath.Join(verif, "evidence")
+	if d := os.Getenv("VERIF_EVIDENCE_DIR"); d != "" {
+		evDir = d
+	}
+	os.MkdirAll(evDir, 0o755)
 	b, _ := json.MarshalIndent(ev, "", " ")
-	os.WriteFile(filepath.Join(verif, "evidence", cfg.ID+".json"), b, 0o644)
+	os.WriteFile(filepath.Join(evDir, cfg.ID+".json"), b, 0o644)
 }
 
 func pkgOfFuncs(fs []string) string {
